@@ -447,7 +447,9 @@ Inductive everr :=
 | DivisionByZero
 | LeftShiftingNegative
 | ReverseShifting
-| AssignmentToValue.
+| AssignmentToValue
+| UnsetVariable (name : str)        (* GetVariableError of the shell's environment *)
+| AssignReadOnly (name : str).      (* AssignVariableError of the shell's environment *)
 
 (* fn parse_integer(value: &str) -> Option<i64> *)
 Definition parse_integer (value : str) : option Z :=
@@ -734,6 +736,7 @@ Fixpoint eval (f : nat) (a : list ast) (e : env) : eres term :=
 
 Inductive cause :=
 | CSyntax (e : synerr)
+| CPortability                 (* PortabilityError::IncrementDecrement *)
 | CEval (e : everr).
 
 Inductive outcome :=
@@ -753,5 +756,56 @@ Definition run (cls : N -> N) (expression : str) (e : env) : outcome :=
       | EErr c loc e' => RErr (CEval c) loc e'
       | EPanic => RPanic
       | EFuel => RFuel
+      end
+  end.
+
+(* ====================================================================== *)
+(* ast/portability.rs and eval_with_config with Config { portable: true }  *)
+(* ====================================================================== *)
+
+(* the nodes `check` looks for: prefix and postfix increment / decrement *)
+Definition incdec_location (n : ast) : option range :=
+  match n with
+  | APrefix PreInc loc | APrefix PreDec loc => Some loc
+  | APostfix PostInc loc | APostfix PostDec loc => Some loc
+  | _ => None
+  end.
+
+(* Iterator::min_by_key(|location| location.start): the first of the minimal ones *)
+Fixpoint min_by_start (l : list range) : option range :=
+  match l with
+  | [] => None
+  | x :: r =>
+      match min_by_start r with
+      | None => Some x
+      | Some y => if (fst y <? fst x)%N then Some y else Some x
+      end
+  end.
+
+Fixpoint filter_map {A B} (f : A -> option B) (l : list A) : list B :=
+  match l with
+  | [] => []
+  | a :: r => match f a with Some b => b :: filter_map f r | None => filter_map f r end
+  end.
+
+(* portability::check: None = Ok(()) *)
+Definition portability_check (a : list ast) : option range :=
+  min_by_start (filter_map incdec_location a).
+
+(* yash_arith::eval_with_config(expression, &mut env, Config { portable: true }) *)
+Definition run_portable (cls : N -> N) (expression : str) (e : env) : outcome :=
+  match parse (tokens_of cls expression) with
+  | PFuel => RFuel
+  | PErr c loc => RErr (CSyntax c) loc e
+  | POk a _ =>
+      match portability_check a with
+      | Some loc => RErr CPortability loc e
+      | None =>
+          match (do t, e <- eval (length a) a e; into_value t e) with
+          | EOk z e' => RVal z e'
+          | EErr c loc e' => RErr (CEval c) loc e'
+          | EPanic => RPanic
+          | EFuel => RFuel
+          end
       end
   end.
